@@ -89,6 +89,10 @@ class Func:
         self.is_staticmethod = any(
             isinstance(d, ast.Name) and d.id in ("staticmethod",) for d in getattr(node, "decorator_list", [])
         )
+        self.is_property = any(
+            (isinstance(d, ast.Name) and d.id in ("property", "cached_property")) or (isinstance(d, ast.Attribute) and d.attr in ("cached_property",))
+            for d in getattr(node, "decorator_list", [])
+        )
 
     @property
     def lineno(self):
